@@ -14,7 +14,7 @@ SHARDS = {"quick": 4, "thorough": 16}
 WATCHDOG = {"quick": 900, "thorough": 3000}
 REQUIRED_CLASSES = {t: ["empty_top_class", "empty_bottom_class", "empty_interior_class", "single_class", "all_below_SD",
                         "straddling_SD", "all_above_SD", "form:histogram", "form:collective_frame", "order:reversed", "order:permuted", "histogram:accessor_kept_counts_updated_in_place", "curve:native_probability!=0.5",
-                        "curve:k_2_given", "miner_object_kept"]
+                        "curve:k_2_given", "miner_object_kept", "histogram:integer_class_limits_scaled_by_the_library"]
                     for t in ("quick", "thorough")}
 REQUIRED_MONITORS = ["damage==sum(n_i/N_i)", "additive_over_split", "proportional_to_cycles", "permutation_invariant",
                      "original<=haibach<=elementary", "gassner:elementary_damage==1", "gassner:haibach_damage==1",
@@ -91,6 +91,11 @@ def own_damage(amps, cyc, SD, ND, k1, k2):
     return [c / basquin_N(a, SD, ND, k1, k2) if c > 0 else 0.0 for a, c in zip(amps, cyc)]
 
 
+def _int_limits(case):
+    e = case["edges"]
+    return case["form"] == "histogram" and case["rseed"] % 3 == 0 and bool(np.allclose(np.diff(e), e[1] - e[0]))
+
+
 def make_collective(case):
     """returns (accessor object, amplitudes, cycles): the amplitude of a class is the mid of its range interval / 2"""
     c = case["curve"]
@@ -100,6 +105,16 @@ def make_collective(case):
     cyc = np.asarray(case["cycles"], dtype=float)
     mids = (rng_edges[:-1] + rng_edges[1:]) / 2.0
     amps = mids / 2.0
+    if _int_limits(case):
+        # a histogram counted over integer class limits (range_histogram([0, 50, 100, ...])) and then scaled to the load level
+        # by the library's own scale(): the class limits of the result are the scaled ones, whatever their type was
+        w = int(1 + case["rseed"] % 60)
+        m = len(cyc)
+        base = pd.Series(cyc, index=pd.IntervalIndex.from_breaks(np.arange(m + 1, dtype=np.int64) * w, name="range"), name="cycles")
+        f = top_amp / ((m - 0.5) * w / 2.0)
+        coll = base.load_collective.scale(f)
+        mids = (np.arange(m) + 0.5) * w * f
+        return coll, mids / 2.0, cyc, coll.to_pandas()
     if case["form"] == "histogram":
         ser = pd.Series(cyc, index=pd.IntervalIndex.from_breaks(rng_edges, name="range"), name="cycles")
         return ser.load_collective, amps, cyc, ser
@@ -129,6 +144,8 @@ def run_case(case, ctx):
     occupied = cyc > 0
     m = len(cyc)
     ctx.tag(f"form:{case['form']}")
+    if _int_limits(case):
+        ctx.tag("histogram:integer_class_limits_scaled_by_the_library")
     struct = []
     if m == 1:
         ctx.tag("single_class")
@@ -217,8 +234,11 @@ def run_case(case, ctx):
     for rule, acc, k2 in (("elementary", wc.gassner_miner_elementary, k1), ("haibach", wc.gassner_miner_haibach, 2 * k1 - 1)):
         Ng = float(np.asarray(acc.gassner_cycles(coll)))
         if math.isinf(Ng):
-            ok = all(basquin_N(a, SD, ND, k1, k2) == math.inf for a in amps[occupied]) or top < SD
-            ctx.check(f"gassner:{rule}_damage==1", ok, observed=Ng, expected="finite", tags=mech)
+            # no finite number of cycles gives damage one only if no occupied class damages at all under the rule; an infinite
+            # prediction for a collective below SD that does damage under the rule (k_2 finite) is the recorded finding
+            ok = all(basquin_N(a, SD, ND, k1, k2) == math.inf for a in amps[occupied])
+            ctx.check(f"gassner:{rule}_damage==1", ok, observed=Ng, expected="finite", tags=mech + (["c11_gassner_infinite_below_SD"] if top < SD else []),
+                      detail={"rule": rule, "top_amplitude": top, "SD": SD, "damage_of_one_pass_under_the_rule": float(sum(own_damage(amps, cyc, SD, ND, k1, k2)))})
             continue
         scaled = cyc * (Ng / total)
         dmg = sum(own_damage(amps, scaled, SD, ND, k1, k2))
